@@ -499,6 +499,7 @@ class C16(OwnProfile):
     def config(self, r):
         c = super().config(r)
         c["p_raising_iter"] = r.choice([0.05, 0.15, 0.3])
+        c["p_se_junk_key"] = r.choice([0.0, 0.03, 0.08])
         return c
 
     def after(self, w, op, out):
